@@ -74,14 +74,8 @@ fn coordinate_to_name_cols() {
     kani::cover!(col == 26);
     check_name(7, col);
 }
-#[kani::proof]
-#[kani::unwind(12)]
-fn coordinate_to_name_err() {
-    // (symbolic row and col together do not finish: 7 min probe)
-    let col: u32 = kani::any();
-    kani::assume(col >= 16384);
-    assert!(coordinate_to_name((7, col)).is_err());
-}
+// (Err for col >= 16384: a harness with a symbolic out-of-range column did not finish in 7 min; the clause is carried by the Verus unit
+// `shared` through column_number_to_name's contract proved in unit a1.)
 /// C06: no panic for any coordinate (fails: `cell.0 + 1` overflows for row == u32::MAX, which offset_cell_name produces from a negative offset)
 #[kani::proof]
 #[kani::unwind(12)]
